@@ -68,7 +68,7 @@ func init() {
 					}
 					roundTrip(c, "gob", vmodel.Exact, pairs, x, label, nil)
 				}},
-				{Name: "random", N: tierN(tier, 20000, 400000), Run: func(c *Ctx, idx int) {
+				{Name: "random", N: tierN(tier, 10000, 400000), Run: func(c *Ctx, idx int) {
 					g := exactGen(c, false, idx)
 					x, label := randomValue(g, tierN(tier, 2, 4))
 					c.Count("random-kind:"+kindOf(x), 1)
@@ -77,7 +77,7 @@ func init() {
 			}
 		},
 		Floors: func(tier string) map[string]int64 {
-			return map[string]int64{"roundtrips": int64(tierN(tier, 60000, 600000))}
+			return map[string]int64{"roundtrips": int64(tierN(tier, 50000, 600000))}
 		},
 		Assumptions: []string{
 			"the canonical form in mode exact applies only the unset/empty normal form; instants are compared as UTC instants to the nanosecond",
